@@ -20,13 +20,14 @@ def run(ctx: Ctx) -> int:
             for sh in range(8):
                 jobs.append(Job(H, "h_diagnostic", timeout=t, name=f"h_diagnostic[{SHAPES[shape]},shard {sh + 1}/8]",
                                 env={"VERIF_C29_SHAPE": shape, "VERIF_C29_SHARD": f"{sh}/8"}))
+    jobs.append(Job(H, "h_snippet_tabs", timeout=t))
     for fn in ("h_wrap_total", "h_wrap_faithful", "h_wrap_indents"):
         jobs.append(Job(H, fn, timeout=t))
     jobs.append(Job(H, "h_wrap_breaks_only_at_whitespace", timeout=t, role=f"finding:{KEY}"))
     ctx.functions_encoded = ["diagnostic.py: DiagnosticsRenderer.render_diagnostic, render_snippet (incl. nested render_line), level_str, wrap; Diagnostic/SubDiagnostic base classes",
                              "span.py: Span.__post_init__/__len__/is_multiline/shift_left, Loc.shift_left, SourceMap.add_file/span_lines"]
     ctx.bounds = {"indentation": "0..20 for the spanned lines and (when shown) the context lines, i.e. both sides of the 12-column threshold",
-                  "span": "start offset 0..3, width 1..3; 1, 2 or 4 lines", "lines before": "0..3", "labels/messages": "5 texts each (none, short, multi-word, longer than the wrap width, two paragraphs)",
+                  "span": "start offset 0..3, width 1..3; 1, 2 or 4 lines", "lines before": "0..3", "tabs": "TAB characters in the indentation (1, 2, 14, mixed), before the span and in context lines (60 cases)", "labels/messages": "5 texts each (none, short, multi-word, longer than the wrap width, two paragraphs)",
                   "wrap": "every string of length <= 3 (total) / <= 4 (faithful) over the alphabet {a, b, space, newline, -}, width 1..3"}
     ctx.outside_claim = ["terminal width / colours", "MietteRenderer (needs the miette-py extension module)", "spans that start or end inside leading white space (no AST node does)",
                          "texts longer than 4 characters for the symbolic-string conditions"]
